@@ -1299,6 +1299,8 @@ class MempoolFamily(SubsFamily):
                 # files and tables) while the tracker looks up the confirmed outputs that new mempool transactions
                 # spend: the refreshes completing meanwhile are synchronised ones and must be exact all the same
                 k['preempt'] = True
+                k['line_p'] = 0.0           # (hundreds of traced history reads cost minutes of wall clock per run)
+                k['line_stall_p'] = 0.0
                 ncl = rng.randint(1, 3)
                 for c in range(ncl):
                     for _ in range(rng.randint(1, 3)):
